@@ -55,7 +55,7 @@ Inductive action :=
 | AMoveRegion (o : op) (r : nat)                                  (* move_region_contents_to_new_regions *)
 | AInlineRegion (o : op) (r : nat) (bp : bpoint)                  (* inline_region *)
 | ANotify (o : op)                                                (* notify_op_modified *)
-| ACreateBlock (id : block) (bp : bpoint) (tys : list Z).         (* create_block (inherited from Builder) *)
+| ACreateBlock (id : block) (bp : bpoint) (tys : list Z).         (* create_block *)
 
 (* PatternRewriterListener / BuilderListener callbacks *)
 Inductive event :=
@@ -199,11 +199,18 @@ Definition x_inline_region (o : op) (k : nat) (bp : bpoint) (c : Ct) (r : rw) : 
 
 Definition x_notify (o : op) (c : Ct) (r : rw) : xres := (c, set_flag r, [(EModify o, c)]).
 
-(* Builder.create_block (NOT overridden by PatternRewriter): insert the block, move the default
-   insertion point to its end, handle_block_creation; has_done_action is not touched *)
+(* Everything from here on is parameterised by `cbflag`: true = the current code, where
+   PatternRewriter.create_block sets has_done_action before delegating to Builder.create_block
+   (commit 5d0c2dd); false = the code before that commit (create_block inherited unchanged), kept
+   for the recorded refutations. *)
+Section Exec.
+Variable cbflag : bool.
+
+(* create_block: [has_done_action = True;] Builder.create_block: insert the block, move the default
+   insertion point to its end, handle_block_creation *)
 Definition x_create_block (id : block) (bp : bpoint) (tys : list Z) (c : Ct) (r : rw) : xres :=
   let c1 := p_create_block M id bp tys c in
-  (c1, {| flag := flag r; dip := IPEnd id |}, [(EBlock id, c1)]).
+  (c1, {| flag := cbflag || flag r; dip := IPEnd id |}, [(EBlock id, c1)]).
 
 Definition exec (a : action) (c : Ct) (r : rw) : xres :=
   match a with
@@ -380,4 +387,5 @@ Definition rewrite_region (n fuel : nat) (cf : config) (m : matcher) (pick : pic
            else Some (s1, false)
   end.
 
+End Exec.
 End Driver.
